@@ -94,11 +94,15 @@ def task(W, payload):
     opts = Opts(max_strats=2, max_flows=6, allow_requests=False, allow_computed=False, allow_state=False, small_dt=True, max_steps=6, allow_rebalance=False)
     if variant == "shift":
         opts.allow_time = False; opts.allow_requests = True; opts.n_requests = 4; opts.negative_start_bias = 0.3
+    if variant == "rename" and (payload["index"] // len(VARIANTS)) % 2 == 1:
+        # every second renaming program: a strain stratification (the renaming reverses the alphabetical order of the strain names), strains that differ
+        opts.strain_bias = 0.8; opts.force_strat = True; opts.force_infection = True
     if variant == "rename":
         # two mixing-carrying stratifications and an infection flow: the renaming below REVERSES the alphabetical order of the stratification names
         opts.mixing_pair_bias = 0.6; opts.force_infection = True
     if variant == "perm":
-        opts.inexact_split_bias = 0.4    # splits that sum to one only within the API's tolerance: reordering the strata must still only permute the results
+        opts.inexact_split_bias = 0.9 if (payload["index"] // len(VARIANTS)) % 2 == 0 else 0.4
+        if (payload["index"] // len(VARIANTS)) % 2 == 0: opts.force_strat = True    # splits that sum to one only within the API's tolerance: reordering the strata must still only permute the results
     if variant == "perm" and (payload["index"] // len(VARIANTS)) % 2 == 1:
         opts.force_strat = True      # (the shared-object half of the permutation variant needs a stratification to share)
     if variant in ("order", "swap"): opts.allow_post_flows = False
